@@ -8,6 +8,7 @@ from ..guards import conv_guard_factory
 from ..resolve import Resolver, add_pywbem_dynamic, check_dynamic_idioms
 from ..ops import operations, OPS, ENVELOPES
 from ..cfg import stmt_facts, expr_guards
+from ..shapes import ParserShapes, TailInterp, show as show_shape
 
 EXPLANATION = (
     "Error discipline of the reply path, decided by interprocedural "
@@ -722,3 +723,103 @@ def run(repo, rep, tier):
                             path, w.lineno, 'unbounded loop in the reply '
                             'parser (only recursion along the tuple tree and '
                             'for-loops over finite collections are expected)')
+
+    _r2_shapes(repo, rep, ops, conn)
+
+
+def _r2_shapes(repo, rep, ops, conn):
+    """C02.R2: elements of the reply are type-checked before they are used in
+    a shape-dependent way or returned (the 'wrong element for the operation'
+    clause)."""
+    r2 = rep.rule('C02.R2', 'reply elements are narrowed by isinstance '
+                  'before shape-dependent use and before they are returned')
+    ps = ParserShapes(repo)
+    irv = ps.element_shapes('parse_ireturnvalue')
+    if len(irv) < 12:
+        raise AnalysisError('parse_ireturnvalue: child element list not '
+                            'found (%d)' % len(irv))
+    r2.notes.append('IRETURNVALUE children and the shapes their parse '
+                    'methods return: %s' % {
+                        el: sorted(show_shape(x) for x in ss)
+                        for el, ss in sorted(irv.items())})
+    seen = set()
+
+    def producers(interp, bad):
+        out = []
+        for b in bad:
+            els = sorted(interp.by_shape.get(b, ()))
+            out.append('%s (from %s)' % (show_shape(b),
+                                         ', '.join(els[:4]) or '?'))
+        return sorted(out)
+
+    def report_use(func, node, what, bad, av, interp):
+        key = (func.qualname, norm(node, 70), what)
+        r2.ob(not bad, '%s|%s|%s' % key,
+              {'function': func.qualname, 'use': norm(node, 70),
+               'kind': what, 'shapes': sorted(show_shape(x)
+                                              for x in av.shapes)[:8]})
+        if bad and key not in seen:
+            seen.add(key)
+            rep.finding(r2, func.qualname, norm(node, 70), what, OPS,
+                        node.lineno,
+                        '%s of a reply element that is not narrowed by '
+                        'isinstance: invalid for %s - a DTD-valid reply with '
+                        'the wrong element for this operation raises '
+                        'TypeError/AttributeError/KeyError/ValueError '
+                        'instead of a pywbem.Error'
+                        % (what, '; '.join(producers(interp, bad)[:5])))
+
+    nops = 0
+    for op in ops:
+        if op.envelope != '_imethodcall':
+            continue
+        f = op.func
+        has_var = any(isinstance(n, ast.Assign) and any(
+            n.value is c for c in op.envelope_calls)
+            for n in walk_no_nested(f.node))
+        if not has_var:
+            continue
+        nops += 1
+        r2.sites += 1
+        r2.functions.add(f.fq)
+        ti = TailInterp(repo, ps, conn, report_use)
+        rets = ti.run(f, {})
+
+        def flat(av):
+            if av is None:
+                return []
+            if av.kind == 'tuple':
+                out = []
+                for i in av.items:
+                    out += flat(i)
+                return out
+            return [av]
+        for r in rets:
+            for av in flat(r):
+                if av.kind not in ('elems', 'elem'):
+                    continue
+                classes = {x[1] for x in av.shapes if x[0] == 'obj'}
+                allobj = all(x[0] == 'obj' for x in av.shapes)
+                ok = (av.kind == 'elems' and av.validated) or \
+                    (allobj and len(classes) <= 1)
+                r2.ob(ok, '%s|return' % f.qualname,
+                      {'operation': f.name, 'returns': repr(av)[:160]})
+                key = (f.qualname, 'return', av.origin)
+                if not ok and key not in seen:
+                    seen.add(key)
+                    rep.finding(
+                        r2, f.qualname, 'return of %s' % (av.origin or
+                                                          'reply elements'),
+                        'unchecked-return', OPS, r.node.lineno,
+                        'the operation returns reply elements without an '
+                        'isinstance check: a DTD-valid reply with the wrong '
+                        'element makes it return %s instead of its '
+                        'documented result type or a pywbem.Error'
+                        % ', '.join(sorted(show_shape(x)
+                                           for x in av.shapes)[:8]))
+        if not rets:
+            r2.undecided.append('%s: no return of a reply-derived value '
+                                'found' % f.name)
+    if nops < 20:
+        raise AnalysisError('only %d result-using operations interpreted'
+                            % nops)
